@@ -177,3 +177,115 @@ func zzC07ArbitraryPeer() {
 	}
 	vReach("end")
 }
+
+// ---------------------------------------------------------------- Client.Connect: what follows the negotiation (C05, C18, C07)
+//
+// Modern session: the client opens subscriptions/listen for exactly the list-changed notifications it has handlers for
+// (none: no listen) — otherwise the server never counts it among the entitled sessions (C18); a listen that cannot be
+// opened fails the connect and cancels the listen. Legacy session: a handshake that fails at any step (initialize
+// refused, a version this SDK does not support, the initialized notification undeliverable) closes the half-built
+// session exactly once and reports the error; nothing is left running.
+type zzConnectEnv struct {
+	listens      []*SubscriptionsListenParams
+	listenCtx    []context.Context
+	listenFails  bool
+	initOutcome  int // 0 ok, 1 initialize fails, 2 version unknown to this SDK
+	notifyFails  bool
+	closes       int
+	sessionUpd   int
+}
+
+var zzCE *zzConnectEnv
+
+func zzConnectRouter(ctx context.Context, method string, req Request) (Result, error) {
+	e := zzCE
+	switch method {
+	case methodDiscover:
+		return &DiscoverResult{SupportedVersions: []string{protocolVersion20260728, protocolVersion20251125}}, nil
+	case methodSubscriptionsListen:
+		e.listens = append(e.listens, req.GetParams().(*SubscriptionsListenParams))
+		e.listenCtx = append(e.listenCtx, ctx)
+		if e.listenFails {
+			return nil, errors.New("listen refused")
+		}
+		return &SubscriptionsListenResult{}, nil
+	case methodInitialize:
+		switch e.initOutcome {
+		case 1:
+			return nil, errors.New("initialize refused")
+		case 2:
+			return &InitializeResult{ProtocolVersion: "1999-01-01"}, nil
+		}
+		return &InitializeResult{ProtocolVersion: protocolVersion20251125}, nil
+	case notificationInitialized:
+		if e.notifyFails {
+			return nil, errors.New("connection lost")
+		}
+		return nil, nil
+	}
+	return nil, errors.New("unexpected RPC " + method)
+}
+
+func zzConnectConnClose(c *jsonrpc2.Connection) error { zzCE.closes++; return nil }
+
+func zzC07ConnectOutcomes() {
+	zzC06 = &zzC06Env{}
+	e := &zzConnectEnv{}
+	zzCE = e
+	opts := &ClientOptions{}
+	hT, hP, hR := vBool("toolHandler"), vBool("promptHandler"), vBool("resourceHandler")
+	if hT {
+		opts.ToolListChangedHandler = func(context.Context, *ToolListChangedRequest) {}
+	}
+	if hP {
+		opts.PromptListChangedHandler = func(context.Context, *PromptListChangedRequest) {}
+	}
+	if hR {
+		opts.ResourceListChangedHandler = func(context.Context, *ResourceListChangedRequest) {}
+	}
+	c := NewClient(&Implementation{Name: "c", Version: "v"}, opts)
+	c.sendingMethodHandler_ = zzConnectRouter
+	modern := vBool("modernSession")
+	requested := protocolVersion20251125
+	if modern {
+		requested = protocolVersion20260728
+		e.listenFails = vBool("listenRefused")
+	} else {
+		e.initOutcome = vChoice("initialize", 3)
+		e.notifyFails = vBool("initializedUndeliverable")
+	}
+	cs, err := c.Connect(context.Background(), &InMemoryTransport{}, &ClientSessionOptions{ProtocolVersion: requested})
+	if modern {
+		want := hT || hP || hR
+		if !want {
+			vAssert(err == nil && len(e.listens) == 0 && cs.listenCancel == nil, "C18.connect.no-handlers-no-listen")
+			vReach("no-listen")
+		} else {
+			vAssert(len(e.listens) == 1, "C18.connect.one-listen-for-the-handlers-it-has")
+			n := e.listens[0].Notifications
+			vAssert(n != nil && n.ToolsListChanged == hT && n.PromptsListChanged == hP && n.ResourcesListChanged == hR, "C18.connect.subscribes-to-exactly-the-notifications-it-handles")
+			if e.listenFails {
+				vAssert(err != nil && cs == nil, "C18.connect.unopenable-listen-fails-the-connect")
+				vAssert(e.listenCtx[0].Err() != nil, "C05.connect.failed-listen-is-cancelled")
+				vReach("listen-refused")
+			} else {
+				vAssert(err == nil && cs.listenCancel != nil && e.listenCtx[0].Err() == nil, "C18.connect.listen-stays-open")
+				cs.Close()
+				vAssert(e.listenCtx[0].Err() != nil, "C05.close-ends-the-listen-stream")
+				vReach("listening")
+			}
+		}
+		vReach("end")
+		return
+	}
+	failed := e.initOutcome != 0 || e.notifyFails
+	if failed {
+		vAssert(err != nil && cs == nil, "C07.connect.failed-handshake-is-an-error")
+		vAssert(e.closes == 1, "C05.connect.failed-handshake-closes-the-session-once")
+		vReach("handshake-failed")
+	} else {
+		vAssert(err == nil && cs != nil && e.closes == 0, "C07.connect.ok")
+		vAssert(cs.state.InitializeResult.ProtocolVersion == protocolVersion20251125, "C07.connect.version-recorded")
+	}
+	vReach("end")
+}
